@@ -8,7 +8,8 @@ open Finset BigOperators Matrix
 
 set_option linter.unusedSectionVars false
 
-namespace GT
+namespace GT.GS
+open GT.Iso
 
 variable {K : Type*} [Field K] {n : ℕ}
 
@@ -456,4 +457,4 @@ theorem gsD_toFn (F : Matrix (Fin n) (Fin n) K) (rows : List (DVec n K)) :
 
 end exec
 
-end GT
+end GT.GS
